@@ -1,0 +1,42 @@
+//go:build verif
+
+// Contracts for package graph, read by /verif/govc (contract-based deductive verification).
+// Comments only; compiled only with -tags verif.
+package graph
+
+// Ghost log of calls into external packages (here: gographviz): entry i is the callee xlog_fn(i), its receiver
+// xlog_recv(i), its string / integer arguments xlog_str/int(i, k) and map[string]string arguments xlog_mapss(i, k).
+//@ ghostvar xlen int
+
+// C18: an edge of the diagram is exactly (state_from -> state_to, label)
+//@ func AddEdge
+//@ props C18
+//@ results g
+//@ requires graphInst != nil
+//@ ensures [C18] xlen == old(xlen) + 1 && xlog_fn(old(xlen)) == "(*gographviz.Graph).AddEdge" && xlog_recv(old(xlen)) == graphInst
+//@ ensures [C18] xlog_str(old(xlen), 0) == fmt.Sprintf("state_%d", from) && xlog_str(old(xlen), 1) == fmt.Sprintf("state_%d", to)
+//@ ensures [C18] has(xlog_mapss(old(xlen), 3), "label") && xlog_mapss(old(xlen), 3)["label"] == Label
+//@ ensures g == graphInst
+//@ modifies xlen
+
+// C18: a node of the diagram is named after its state number and carries the record label built from the items
+//@ func (*GraghNode).GenDotGraph
+//@ props C18
+//@ results g
+//@ requires graphInst != nil
+//@ ensures [C18] xlen == old(xlen) + 1 && xlog_fn(old(xlen)) == "(*gographviz.Graph).AddNode" && xlog_recv(old(xlen)) == graphInst
+//@ ensures [C18] xlog_str(old(xlen), 1) == fmt.Sprintf("state_%d", node.StateNumber)
+//@ ensures [C18] has(xlog_mapss(old(xlen), 2), "label") && has(xlog_mapss(old(xlen), 2), "shape") && xlog_mapss(old(xlen), 2)["shape"] == "record"
+//@ ensures g == graphInst
+// behaviour of gographviz.AddNode (external, not verified): the node can be looked up by its name afterwards, with the attributes given
+//@ assumes g.Nodes != nil && g.Nodes.Lookup[fmt.Sprintf("state_%d", node.StateNumber)] != nil && has(g.Nodes.Lookup[fmt.Sprintf("state_%d", node.StateNumber)].Attrs, "label") &&
+//@     len(g.Nodes.Lookup[fmt.Sprintf("state_%d", node.StateNumber)].Attrs["label"]) >= 1
+//@ modifies xlen
+//@ loop 0: invariant len(labels) >= 1
+
+//@ func NewGraph
+//@ trusted wraps gographviz.ParseString / NewGraph / Analyse on a constant
+//@ props C18
+//@ ensures result != nil && fresh(result)
+//@ allocates gographviz.Graph
+//@ modifies xlen
